@@ -83,6 +83,14 @@ public:
    /// @since  0.2, 10.04.2016
    TypedArgBase* findArg( const ArgumentKey& key) const;
 
+   /// Returns if an argument with exactly this short or long argument name is
+   /// defined. Abbreviations are not taken into account.
+   ///
+   /// @param[in]  key  The short and/or long argument name to check.
+   /// @return  \c true if an argument with this key is stored.
+   /// @since  x.y.z, 01.10.2026
+   bool hasArgument( const ArgumentKey& key) const;
+
    /// Specifies the line length to use when printing the usage.
    /// Used when this container is used to store te sub-group arguments.
    /// @param[in]  useLen  The new line length to use.<br>
